@@ -253,6 +253,19 @@ def raw_cases(rng, tier):
             if tier != "quick" or v in (-1, -2):
                 text2 = 'import "std/io";\nfn main() {\n    let a: [%d]i32 = [%s];\n    let c: %s = (%d) as %s;\n    io::Println(1);\n    io::Println(a[c]);\n    io::Println(2);\n}\n' % (n, ", ".join(map(str, vals)), t, v, t)
                 out.append(("cast-let-index-%s" % t, text2, true, vals))
+    trunc_div = lambda a, b: abs(a) // abs(b) * (1 if (a < 0) == (b < 0) else -1)
+    for (k, op, c) in [(-7, "%", 3), (-7, "/", 2), (7, "%", -3), (-9, "%", 4), (-1, "/", 2), (-8, "/", 3), (-5, "%", 5), (9, "/", -4), (-128, "/", -64), (-6, "%", -4)]:
+        t = rng.choice(["i32", "i64", "i8", "i16"])
+        n = 5; vals = [10 * (j + 1) + rng.below(9) for j in range(n)]
+        q = trunc_div(k, c)
+        true = q if op == "/" else k - q * c
+        decl = rng.choice(["let", "const"])
+        text = 'import "std/io";\nfn main() {\n    let a: [%d]i32 = [%s];\n    %s k: %s = %d;\n    io::Println(1);\n    io::Println(a[k %s %s]);\n    io::Println(2);\n}\n' % (n, ", ".join(map(str, vals)), decl, t, k, op, "(%d)" % c if c < 0 else c)
+        out.append(("signed-%s" % {"/": "div", "%": "rem"}[op], text, true, vals))
+    for lit, v in [("010", 10), ("0x0a", 10), ("-0b11", -3), ("0o7", 7), ("1_0", 10), ("-012", -12), ("0b1000", 8), ("007", 7), ("0X0B", 11)]:
+        n = 12; vals = [100 + j for j in range(n)]
+        out.append(("literal-base", 'import "std/io";\nfn main() {\n    let a: [%d]i32 = [%s];\n    io::Println(1);\n    io::Println(a[%s]);\n    io::Println(2);\n}\n' % (n, ", ".join(map(str, vals)), lit), v, vals))
+        out.append(("literal-base-let", 'import "std/io";\nfn main() {\n    let a: [%d]i32 = [%s];\n    let k: i32 = %s;\n    io::Println(1);\n    io::Println(a[k]);\n    io::Println(2);\n}\n' % (n, ", ".join(map(str, vals)), lit), v, vals))
     return out
 
 
@@ -270,11 +283,11 @@ def check_raw(rep, rng, tier, st):
         if r.compile_rc == 1:
             st["raw"]["rejected"] += 1
             codes = [d[1] for d in r.diags if d[0] == "error"]
-            if true < n and codes and all(c == "T0009" for c in codes):
+            if -n <= true < n and codes and all(c == "T0009" for c in codes):
                 rep.fail("misreject:" + key, "index arithmetic whose run-time value is %d (in range of the %d-element array) is rejected as out of bounds: %s" % (true, n, [d[2][:80] for d in r.diags][:1]), rp)
             continue
         st["raw"]["accepted"] += 1
-        if true < n:
+        if -n <= true < n:
             want, wantrc = ["1", str(vals[true]), "2"], 0
             if r.lines != want or r.run_rc != 0:
                 rep.fail("wrong:" + key, "accepted program (%s): the index has the value %d, the program prints %s (exit %s), expected %s" % (name, true, r.lines, r.run_rc, want), dict(rp, expected=want, observed=r.lines))
